@@ -588,16 +588,17 @@ func evalIterateStmt(vm *r.VM, node *syntax.IterateStmt) error {
 	// execIterationBlock, including set "currentKey" and "currentValue" to scope,
 	// and preDefined indication variables
 	execIterationBlockFn := func(key r.Element, v r.Element) error {
-		// set pre-defined value
+		// set pre-defined value - like every other variable, the loop variable
+		// holds its own copy of a list / dictionary element
 		if nameLen == 1 {
-			if err := vm.SetElement(valueSlot, v); err != nil {
+			if err := vm.SetElement(valueSlot, value.DuplicateValue(v)); err != nil {
 				return err
 			}
 		} else if nameLen == 2 {
 			if err := vm.SetElement(keySlot, key); err != nil {
 				return err
 			}
-			if err := vm.SetElement(valueSlot, v); err != nil {
+			if err := vm.SetElement(valueSlot, value.DuplicateValue(v)); err != nil {
 				return err
 			}
 		}
